@@ -263,6 +263,8 @@ def order_rule(prog, rep, rule="ORDER", windowless=False):
         inner = rv
         if isinstance(rv, ast.Call) and len(rv.args) == 1:
             inner = rv.args[0]
+        if isinstance(inner, ast.ListComp) and len(inner.generators) == 1 and not inner.generators[0].ifs:
+            inner = inner.generators[0].iter  # an element-wise rebuild keeps order and length
         if isinstance(inner, ast.Name):
             var = inner.id
         d, steps = (None, None)
@@ -433,6 +435,8 @@ def last_rule(prog, rep, rule="LAST", stream_assumption=False):
             gd = None
             if len(ret) == 1:
                 inner = ret[0].value.args[0] if isinstance(ret[0].value, ast.Call) and len(ret[0].value.args) == 1 else ret[0].value
+                if isinstance(inner, ast.ListComp) and len(inner.generators) == 1 and not inner.generators[0].ifs:
+                    inner = inner.generators[0].iter  # an element-wise rebuild keeps order and length
                 if isinstance(inner, ast.Name):
                     gd, _ = flow_list(gfi, inner.id, skip_window_steps=True)
             if gd is None:
